@@ -150,21 +150,35 @@ def dump(x: Any, ren: Optional[Renamer] = None, _seen: Optional[Set[int]] = None
 
 
 def diff_paths(a: Any, b: Any, path: str = "") -> List[str]:
-    """Paths at which two dumps differ (coarse: a differing list/set/dict is reported at its own path unless the
-    children can be aligned)."""
+    """Paths at which two dumps differ.  Objects and dicts are aligned by attribute / key, lists by position; a set
+    that differs is reported at its own path."""
     if type(a) != type(b):
         return [path or "/"]
     if isinstance(a, dict):
-        if set(a) != set(b):
-            return [path or "/"]
-        if "__obj__" in a:
+        if "__obj__" in a and "__obj__" in b:
             if a["__obj__"] != b["__obj__"] or set(a["fields"]) != set(b["fields"]):
                 return [path or "/"]
             out: List[str] = []
             for k in a["fields"]:
                 out += diff_paths(a["fields"][k], b["fields"][k], f"{path}.{k}")
             return out
-        return [] if a == b else [path or "/"]
+        if "__dict__" in a and "__dict__" in b:
+            ka = [json.dumps(k, sort_keys=True, default=str) for k, _ in a["__dict__"]]
+            kb = [json.dumps(k, sort_keys=True, default=str) for k, _ in b["__dict__"]]
+            if ka != kb:
+                return [path or "/"]
+            out = []
+            for (k, va), (_, vb) in zip(a["__dict__"], b["__dict__"]):
+                out += diff_paths(va, vb, f"{path}[{k}]")
+            return out
+        if "__set__" in a or "__obj__" in a or "__dict__" in a or "__table__" in a:
+            return [] if a == b else [path or "/"]
+        if set(a) != set(b):
+            return [path or "/"]
+        out = []
+        for k in a:
+            out += diff_paths(a[k], b[k], f"{path}.{k}")
+        return out
     if isinstance(a, list):
         if len(a) != len(b):
             return [path or "/"]
